@@ -245,7 +245,7 @@ def run(ctx):
         if n.get('k') == 'mem' and n.get('name') in lat:
             ok = False
             for par in reversed(parents[-3:]):
-                if par.get('k') == 'call' and par.get('name') == 'exchange':
+                if par.get('k') == 'call' and par.get('name') in ('exchange', 'size'):
                     ok = True
             if not ok:
                 reads_other.append(n)
